@@ -166,7 +166,48 @@ func c11Body(L int, modes []modeT) func(x *X) {
 	}
 }
 
+// frame-size sweep: request and reply frames whose total length walks across the pool buffer size
+// (cap-1, cap, cap+1 of the read buffers are where "fits the pooled buffer" decisions flip)
+func c11Boundary(modes []modeT) func(x *X) {
+	return func(x *X) {
+		m := modes[x.Choose(len(modes))]
+		size := 44 + x.Choose(30) // body bytes: the frames are 3..12 bytes longer
+		double := x.Choose(2) == 1
+		f := newFixture(m.so, m.co)
+		f.w.keep = !m.so.noCopy
+		flags := byte(0)
+		if double {
+			flags = fDouble
+		}
+		c := newUcall(1, flags, size, formCall)
+		c.issue(f.conn)
+		if c.err != nil || !eqBytes(c.reply, c.want()) {
+			x.Fail("C11/reply-wrong-at-return", "call with a %d-byte body: err=%v reply=%x", size, c.err, c.reply)
+			return
+		}
+		sum := digest(c.reply)
+		for j := 0; j < 4; j++ {
+			l := newUcall(byte(0x20+j), 0, []int{size, 9, 3 * size, size + 1}[j], formCall)
+			l.issue(f.conn)
+		}
+		f.conn.Ping()
+		vs.Quiesce()
+		if d := digest(c.reply); d != sum {
+			x.Fail("C11/client-data-mutated", "the %d-byte reply of a call with a %d-byte body changed after later calls: %s -> %s (mode %s)", len(c.reply), size, sum, d, m.name)
+		}
+		for i, b := range f.w.kept {
+			if d := digest(b); d != f.w.keptSum[i] {
+				x.Fail("C11/handler-args-mutated", "%d argument bytes kept by a handler changed after the handler returned (mode %s)", len(b), m.name)
+			}
+		}
+		x.Outcome("%s size=%d double=%v", m.name, size, double)
+		f.conn.Close()
+		vs.Quiesce()
+	}
+}
+
 func init() {
+	register(&Scenario{Prop: "C11", Name: "c11/frame-boundary", Quick: []Bound{{0, 0}, {1, 0}}, Thorough: []Bound{{2, 0}}, Body: c11Boundary(c11Modes[:5])})
 	register(&Scenario{Prop: "C11", Name: "c11/L2", Quick: []Bound{{0, 0}, {1, 0}}, Thorough: []Bound{{2, 0}}, Body: c11Body(2, c11Modes)})
 	register(&Scenario{Prop: "C11", Name: "c11/L3", Quick: []Bound{{0, 0}}, Thorough: []Bound{{1, 0}}, Body: c11Body(3, c11Modes)})
 }
